@@ -7,6 +7,7 @@
 #include <random>
 
 #include "common.hpp"
+#include <memory>
 using namespace Theo;
 
 static json frames_json(VM& v, bool words) {
@@ -19,7 +20,7 @@ static json frames_json(VM& v, bool words) {
       json w = json::array();
       for (int i = 0; i < f.seg_size; i++) {
         size_t at = (size_t)f.data_start + i;
-        w.push_back(at < data.size() ? json(data[at]) : json("oob"));
+        w.push_back(at < data.size() ? json(data[at]) : json(-1));   // -1: the frame reaches beyond the data memory (no word is negative)
       }
       fr["words"] = w;
     }
@@ -91,12 +92,14 @@ static int cmd_vmreplay(int, char**) {
   signal(SIGALRM, on_alarm);
   std::string line;
   CodegenResult cr;
+  Program pristine;
   bool loaded = false;
   while (std::getline(std::cin, line)) {
     if (line.empty()) continue;
     json in = json::parse(line);
     if (in.contains("load")) {
       cr = compile(th::files_of(in["load"]), in["load"].value("main", "m"));
+      pristine = cr.code;
       loaded = cr.generated_correctly;
       th::emit({{"loaded", loaded}});
       continue;
@@ -117,7 +120,7 @@ static int cmd_vmreplay(int, char**) {
       else if (k == "step") v.setSteppingMode(c[1].get<bool>());
       else if (k == "reset") v.reset();
       alarm(0);
-      obs.push_back(observe(v, cr.code, ret));
+      obs.push_back(observe(v, pristine, ret));
     }
     th::emit({{"i", in["i"]}, {"obs", obs}});
   }
@@ -126,17 +129,20 @@ static int cmd_vmreplay(int, char**) {
 static th::Reg r1("vmreplay", cmd_vmreplay);
 
 
-// drive a fresh VM on cr.code with a seeded random history; one event per call through `out`
-static void drive_random(const CodegenResult& cr, int p, unsigned seed, int calls, bool may_diverge, const std::string& style,
-                         const std::function<void(const json&)>& out) {
+// drive a fresh VM on cr.code with a seeded random history; one event per call through `out`.
+// With `fork`, the machine is copied at a random point of the history (VM b = a): the original goes on to the end of its history,
+// then the copy is driven on its own - its log is a second execution (a "load" event, the original's events up to the copy, the copy's
+// own events), so the specification demands that a copy is an independent machine in the state its original had.  Half-way through
+// its own calls the copy is moved (VM c = std::move(b)) and the history continues on c, as happens inside a growing container.
+static void drive_random(CodegenResult& cr, int p, unsigned seed, int calls, bool may_diverge, const std::string& style,
+                         const std::function<void(const json&)>& out, bool fork = false) {
     std::mt19937 rng(seed);
     std::vector<BreakPoint> locs;
     Program prog = cr.code;
+    const Program pristine = cr.code;      // the program as compiled (the machines get cr.code itself, whatever their constructor takes)
     for (auto& b : prog.getAvailableBreakpoints()) locs.push_back(b);
-    VM v(cr.code);
-    out({{"e", "load"}, {"p", p}});
     auto pick = [&](int n) { return (int)(rng() % (unsigned)n); };
-    for (int c = 0; c < calls; c++) {
+    auto one_call = [&](VM& v) -> json {
       int r = pick(100);
       json ev;
       std::string ret = "none";
@@ -172,10 +178,31 @@ static void drive_random(const CodegenResult& cr, int p, unsigned seed, int call
         ev["e"] = "inspect";
       }
       alarm(0);
-      json o = observe(v, cr.code, ret);
+      json o = observe(v, pristine, ret);
       o.erase("data");
       for (auto& kv : o.items()) ev[kv.key()] = kv.value();
+      return ev;
+    };
+    auto a = std::make_unique<VM>(cr.code);
+    std::unique_ptr<VM> b;
+    std::vector<json> prefix;
+    int fork_at = fork ? pick(calls > 1 ? calls : 1) : -1;
+    out({{"e", "load"}, {"p", p}});
+    for (int c = 0; c < calls; c++) {
+      json ev = one_call(*a);
+      if (fork_at >= 0 && c <= fork_at) prefix.push_back(ev);
       out(ev);
+      if (c == fork_at) b = std::make_unique<VM>(*a);        // the copy; the original runs on below
+    }
+    if (b) {
+      a.reset();                                            // the original is gone before its copy is used
+      out({{"e", "load"}, {"p", p}, {"copy", true}});
+      for (auto& ev : prefix) out(ev);
+      int own = calls / 2 + 4;
+      for (int c = 0; c < own; c++) {
+        if (c == own / 2) { auto c2 = std::make_unique<VM>(std::move(*b)); b = std::move(c2); }
+        out(one_call(*b));
+      }
     }
 }
 
@@ -192,7 +219,7 @@ static int cmd_vmtrace(int, char**) {
     int p = in["p"].get<int>();
     g_case = p;
     drive_random(cr, p, (unsigned)in.value("seed", 1), in.value("calls", 100), in.value("may_diverge", false),
-                 in.value("style", "mixed"), [](const json& ev) { th::emit(ev); });
+                 in.value("style", "mixed"), [](const json& ev) { th::emit(ev); }, in.value("fork", false));
   }
   return 0;
 }
@@ -283,11 +310,12 @@ static int cmd_sys(int, char**) {
           CodegenResult cr = compile(pool[k].first, pool[k].second);
           logs[t].push_back({{"e", "compile"}, {"t", t}, {"seq", seq++}, {"input", k}, {"digest", th::digest_of(cr)}, {"ok", cr.generated_correctly}});
           if (cr.generated_correctly && (rng() % 3) != 0) {
-            int inst = t * 1000 + o;
+            int inst = t * 1000 + o * 2 - 1;
             drive_random(cr, k + 1, (unsigned)rng(), calls, true, "mixed", [&](const json& ev) {
+              if (ev.value("e", "") == "load") inst++;         // a copied machine is an instance of its own
               json e2 = ev; e2["t"] = t; e2["inst"] = inst; e2["seq"] = seq++;
               logs[t].push_back(e2);
-            });
+            }, (rng() % 2) == 0);
           }
           if (rng() % 4 == 0) std::this_thread::yield();
         }
@@ -330,7 +358,7 @@ static int cmd_vmwalk(int, char**) {
     VM v(cr.code);
     th::emit({{"e", "load"}, {"p", p}});
     auto key_of = [&](VM& m) {
-      json o = observe(m, cr.code, "none");
+      json o = observe(m, prog, "none");
       o.erase("ret");
       return o.dump();
     };
@@ -367,13 +395,13 @@ static int cmd_vmwalk(int, char**) {
       else if (e == "step") v.setSteppingMode(call["v"].get<bool>());
       else if (e == "bp") ret = v.setBreakPoint(call["file"].get<std::string>(), call["line"].get<int>(), call["v"].get<bool>()) ? "true" : "false";
       alarm(0);
-      json o = observe(v, cr.code, ret);
+      json o = observe(v, prog, ret);
       o.erase("data");
       for (auto& kv : o.items()) ev[kv.key()] = kv.value();
       th::emit(ev);
       steps++;
       o.erase("ret");
-      json k = observe(v, cr.code, "none"); k.erase("ret");
+      json k = observe(v, prog, "none"); k.erase("ret");
       int nxt = intern(k.dump());
       succ[cur][c] = nxt;
       cur = nxt;
